@@ -68,7 +68,7 @@ PROPS["C06"] = dict(
 PROPS["C08"] = dict(
     modules=["Proofs.C08", "Proofs.C08Full"],
     theorems=['Goflow.C08.cases_match', 'Goflow.C08.decodeUNumber_eq', 'Goflow.C08.decodeUNumber_long', 'Goflow.C08.decodeUNumberLE_eq', 'Goflow.C08.writeDecoded_trunc', 'Goflow.C08.full_value', 'Goflow.C08.v9_time', 'Goflow.C08.ipfix_time', 'Goflow.C08.v5_sampling_14bit', 'Goflow.C08.v5_record_eq_ref',
-              'Goflow.C08.record_eq_ref', 'Goflow.C08.convertFields_record_eq_ref', 'Goflow.C08.packet_eq_ref', 'Goflow.C08.recordOK_of_check', 'Goflow.C08.apply_cases'],
+              'Goflow.C08.record_eq_ref', 'Goflow.C08.convertFields_record_eq_ref', 'Goflow.C08.packet_eq_ref', 'Goflow.C08.recordOK_of_check', 'Goflow.C08.apply_cases', 'Goflow.C08.legacy_source_matches'],
     generators=[dict(name="C08", quick=400, thorough=40000)],
     harness=["impl"],
     level_text="Theorems: the conversion's case table equals the table regenerated from the source; v5_record_eq_ref; record_eq_ref / packet_eq_ref — for every v9 / IPFIX record of the documented domain the conversion equals the documented reference, whatever the template order; number decoding at every width; time rules.",
@@ -76,7 +76,7 @@ PROPS["C08"] = dict(
 
 PROPS["C09"] = dict(
     modules=["Proofs.C09"],
-    theorems=['Goflow.C09.record_eq_ref', 'Goflow.C09.records_eq_ref', 'Goflow.C09.sample_eq_ref', 'Goflow.C09.expanded_sample_eq_ref', 'Goflow.C09.non_flow_samples_yield_nothing', 'Goflow.C09.as_rules'],
+    theorems=['Goflow.C09.record_eq_ref', 'Goflow.C09.records_eq_ref', 'Goflow.C09.sample_eq_ref', 'Goflow.C09.expanded_sample_eq_ref', 'Goflow.C09.non_flow_samples_yield_nothing', 'Goflow.C09.as_rules', 'Goflow.C09.conversion_source_matches'],
     generators=[dict(name="C09", quick=400, thorough=40000)],
     harness=["impl"],
     level_text="Theorems: record_eq_ref, records_eq_ref, sample_eq_ref, expanded_sample_eq_ref, non_flow_samples_yield_nothing, as_rules — sFlow samples map as documented for every sample and record list (frames inside raw headers are C10's subject).",
